@@ -2,7 +2,8 @@
                  + package-wide sweep of the generic rules (non-anchored hits are NOTEs: they belong
                    to no listed property, are recorded in the evidence and never fail a run)
                  + mutation self-test of this property's checker (seeded variants must be reported,
-                   behaviour-preserving twins must stay silent), 16 workers, in-memory overlays.
+                   behaviour-preserving twins must stay silent; every mutant also on the alpha-renamed package and on
+                   every whole-package shape twin), 16 workers, in-memory overlays.
 
 A failing self-test is a defect of the *checker*: the run ends ANALYSIS-ERROR (exit 2), never as a
 VIOLATION of the property."""
@@ -128,7 +129,7 @@ def extend(prop, rep, mod, code, args):
     if code != 0:
         return code  # a violation of the property on this tree: report it, do not self-test on top of it
     from .selftest.run import selftest
-    res = selftest([prop], root=rep.repo.root, jobs=getattr(args, "jobs", 16), renamed_mutants=True)
+    res = selftest([prop], root=rep.repo.root, jobs=getattr(args, "jobs", 16), renamed_mutants=True, reshaped_mutants=True)
     summary = {"variants": len(res), "ok": sum(1 for r in res if r[3] == "ok"), "skipped": sum(1 for r in res if r[3] == "skipped"),
                "failing": [f"{r[1]} {r[3]} {r[2]} :: {r[4][:160]}" for r in res if r[3] not in ("ok", "skipped")],
                "mutants_reported": [f"{r[2]} -> {r[4][:120]}" for r in res if r[1] == "mutant" and r[3] == "ok"],
